@@ -126,7 +126,7 @@ theorem updateState_plain (cfg : Cfg) (v n h p : Nat) :
 theorem storeCasm_plain (v n h p : Nat) : storeCasm n (plainBlock v n h p) [] = .ok [] := by
   unfold storeCasm plainBlock
   by_cases hv : v ≥ 2 <;>
-    simp [hv, declaredDefsOK, Diff.empty, Map.setAll, updAll, bind, Except.bind, pure, Except.pure]
+    simp [hv, declaredDefsOK, declaredDefsOKV1, Diff.empty, Map.setAll, updAll, bind, Except.bind, pure, Except.pure]
 
 theorem checkSuccession_bulk (cfg : Cfg) (v : Nat) (hv : v < 3) (hs : List Nat) (h : Nat) :
     checkSuccession (bulkNode cfg v hs) (plainBlock v hs.length h ((0 :: hs).getD hs.length 0)) = .ok () := by
